@@ -65,7 +65,7 @@ where
                     .unwrap()
             })
             .collect();
-        hs.into_iter().map(|h| h.join().expect("harness worker panicked (harness bug, not an engine panic)")).collect()
+        hs.into_iter().map(|h| h.join().unwrap_or_else(|e| std::panic::resume_unwind(e))).collect()
     });
     for s in sinks {
         total.merge(s);
